@@ -251,6 +251,35 @@ func (k *Kaudit) Exec(ses string, pid, uid int, argv []string, ok bool, withExec
 	return ev
 }
 
+// Connect prints a socket syscall: SYSCALL + SOCKADDR (192.168.0.1:80) terminated by PROCTITLE.
+func (k *Kaudit) Connect(ses string, pid, uid int) *KEvent {
+	seq, ts, tss := k.next()
+	hdr := fmt.Sprintf("msg=audit(%s:%d):", tss, seq)
+	ls := []string{
+		fmt.Sprintf("type=SYSCALL %s arch=c000003e syscall=42 success=yes exit=0 a0=3 a1=7ffd a2=10 a3=0 items=0 ppid=%d pid=%d auid=%d uid=%d gid=%d euid=%d suid=%d fsuid=%d egid=%d sgid=%d fsgid=%d tty=pts0%s comm=\"curl\" exe=\"/usr/bin/curl\" key=\"network\"",
+			hdr, pid-1, pid, uid, uid, uid, uid, uid, uid, uid, uid, uid, sesField(ses)),
+		fmt.Sprintf("type=SOCKADDR %s saddr=02000050C0A800010000000000000000", hdr),
+		fmt.Sprintf("type=PROCTITLE %s proctitle=6375726C00687474703A2F2F3139322E3136382E302E31", hdr),
+	}
+	return &KEvent{Seq: seq, TS: ts, TSStr: tss, Type: "SYSCALL", Ses: ses, PID: pid, Success: true, Lines: ls, NRec: len(ls)}
+}
+
+// OpenLongPath prints an openat of a file whose name is close to PATH_MAX and contains a blank, so
+// that the kernel hex-encodes it: one PATH record of more than 8 KB (below the kernel's 8970).
+func (k *Kaudit) OpenLongPath(ses string, pid, uid int) *KEvent {
+	seq, ts, tss := k.next()
+	hdr := fmt.Sprintf("msg=audit(%s:%d):", tss, seq)
+	name := "/srv/data/" + strings.Repeat("d", 4080) + "/a b"
+	ls := []string{
+		fmt.Sprintf("type=SYSCALL %s arch=c000003e syscall=257 success=yes exit=3 a0=ffffff9c a1=7ffd a2=0 a3=0 items=1 ppid=%d pid=%d auid=%d uid=%d gid=%d euid=%d suid=%d fsuid=%d egid=%d sgid=%d fsgid=%d tty=pts0%s comm=\"cat\" exe=\"/usr/bin/cat\" key=\"files\"",
+			hdr, pid-1, pid, uid, uid, uid, uid, uid, uid, uid, uid, uid, sesField(ses)),
+		fmt.Sprintf("type=CWD %s cwd=\"/home/user%d\"", hdr, uid),
+		fmt.Sprintf("type=PATH %s item=0 name=%s inode=1442551 dev=fd:00 mode=0100644 ouid=0 ogid=0 rdev=00:00 nametype=NORMAL cap_fp=0 cap_fi=0 cap_fe=0 cap_fver=0 cap_frootid=0", hdr, strings.ToUpper(hex.EncodeToString([]byte(name)))),
+		fmt.Sprintf("type=PROCTITLE %s proctitle=636174", hdr),
+	}
+	return &KEvent{Seq: seq, TS: ts, TSStr: tss, Type: "SYSCALL", Ses: ses, PID: pid, Success: true, Lines: ls, NRec: len(ls)}
+}
+
 // AVC prints a compound SELinux denial: AVC + SYSCALL terminated by PROCTITLE.
 func (k *Kaudit) AVC(ses string, pid, uid int) *KEvent {
 	seq, ts, tss := k.next()
